@@ -120,12 +120,25 @@ def one_int(system, rng):
     return v
 
 
+def one_spacelike(system, rng):
+    """a spacelike 4D vector (t^2 < |p|^2; tau-stored: negative tau with |tau| <= |p|); identical to one() below four dimensions"""
+    v = one(system, rng)
+    if len(system) > 2:
+        o = vector.obj(**{k: v[k] for k in names_of(system)[:-1]})
+        mag = float(o.mag)
+        if system[2] == "t":
+            v["t"] = mag * rng.uniform(0.2, 0.8)
+        else:
+            v["tau"] = -mag * rng.uniform(0.2, 0.8)
+    return v
+
+
 def obj_of(system, mom, vals):
     return vector.obj(**{(MOM.get(n, n) if mom else n): vals[n] for n in names_of(system)})
 
 
-NUMPY_LAYOUTS = ["np()", "np(3)", "np(2,2)", "np(3)-int", "np(0)", "np(1)", "np(2,1,2)"]
-AWK_LAYOUTS = ["ak-flat", "ak-jagged", "ak-nested", "ak-option", "ak-record", "ak-rawzip", "ak-regular", "ak-flat-int", "ak-empty", "ak-one"]
+NUMPY_LAYOUTS = ["np()", "np(3)", "np(2,2)", "np(3)-int", "np(0)", "np(1)", "np(2,1,2)", "np(3)-spacelike"]
+AWK_LAYOUTS = ["ak-flat", "ak-jagged", "ak-nested", "ak-option", "ak-record", "ak-rawzip", "ak-regular", "ak-flat-int", "ak-empty", "ak-one", "ak-jagged-spacelike"]
 
 
 def nest(layout):
@@ -133,7 +146,8 @@ def nest(layout):
     return {"np()": "E", "np(3)": ["E", "E", "E"], "np(2,2)": [["E", "E"], ["E", "E"]],
             "ak-flat": ["E", "E", "E"], "ak-jagged": [["E", "E"], [], ["E"]], "ak-nested": [[["E"], ["E", "E"]], [], [[]]],
             "ak-option": [["E", None], None, ["E"]], "ak-record": "E", "object": "E", "ak-rawzip": [["E", "E"], [], ["E"]], "ak-regular": [["E", "E", "E"], ["E", "E", "E"]], "np(3)-int": ["E", "E", "E"], "ak-flat-int": ["E", "E", "E"],
-            "np(0)": [], "np(1)": ["E"], "np(2,1,2)": [[["E", "E"]], [["E", "E"]]], "ak-empty": [], "ak-one": [["E"]]}[layout]
+            "np(0)": [], "np(1)": ["E"], "np(2,1,2)": [[["E", "E"]], [["E", "E"]]], "ak-empty": [], "ak-one": [["E"]],
+            "np(3)-spacelike": ["E", "E", "E"], "ak-jagged-spacelike": [["E", "E"], [], ["E"]]}[layout]
 
 
 def fill(struct, f):
@@ -146,7 +160,7 @@ def fill(struct, f):
 
 def build(layout, system, mom, rng, extras=False):
     """returns (vector in the requested backend/layout, nested structure of stored-coordinate dicts)"""
-    struct = fill(nest(layout), (lambda: one_int(system, rng)) if layout.endswith("-int") else (lambda: one(system, rng)))
+    struct = fill(nest(layout), (lambda: one_int(system, rng)) if layout.endswith("-int") else (lambda: one_spacelike(system, rng)) if layout.endswith("-spacelike") else (lambda: one(system, rng)))
     names = names_of(system)
     key = (lambda n: MOM.get(n, n)) if mom else (lambda n: n)
     if layout == "np(3)-int":
